@@ -489,11 +489,27 @@ func (e *env) run(in *injector) *common.Failure {
 		case "set":
 			key := fmt.Sprintf("k%d", i%3)
 			val := []byte{byte(i), e.gen}
+			prev, had := e.stable[key]
 			if err := e.w.Set([]byte(key), val); err == nil {
 				e.stable[key] = val
+				if got, gerr := e.w.Get([]byte(key)); gerr != nil || string(got) != string(val) {
+					return common.Failf("stable-ack-not-readable", "step %d: Set(%q,%x) returned nil but Get returns %x (err %v)", i, key, val, got, gerr)
+				}
+				e.cls["set-acked"] = true
 			} else {
 				e.failedCalls++
 				e.cls["failed-set"] = true
+				// a failed Set leaves the old value or the new one
+				if got, gerr := e.w.Get([]byte(key)); gerr == nil {
+					switch {
+					case string(got) == string(val):
+						e.stable[key] = val
+						e.cls["failed-set-applied"] = true
+					case had && string(got) == string(prev), !had && len(got) == 0:
+					default:
+						return common.Failf("stable-failed-set-garbled", "step %d: Set(%q,%x) failed (%v) and Get now returns %x, neither the old value %x nor the new one", i, key, val, err, got, prev)
+					}
+				}
 			}
 		case "reopen":
 			if f := reopen(i); f != nil {
@@ -637,6 +653,11 @@ func runCaseFor(c Case, prop string) (res common.Result) {
 		res.Fail = e.ledger
 	} else if prop == "C09" {
 		res.Fail = e.format
+	} else if prop == "C08" {
+		// only the stable-store verdicts belong to this property
+		if f != nil && strings.HasPrefix(f.Sig, "stable-") {
+			res.Fail = f
+		}
 	} else {
 		res.Fail = f
 	}
@@ -669,4 +690,25 @@ func TestC13Faults(t *testing.T) {
 // behind against the README decoder (see formatVerdict).
 func TestC09Faults(t *testing.T) {
 	common.Run(t, "C09", "C09Faults", genCase, func(c Case) common.Result { return runCaseFor(c, "C09") })
+}
+
+// TestC08Faults: the fault histories with the stable store in focus (more Set calls, faults on
+// SetStable and the metadata commit): a Set that returned nil reads back, in process and after the
+// reopens; a Set that returned an error leaves the old or the new value, nothing else.
+func TestC08Faults(t *testing.T) {
+	common.Run(t, "C08", "C08Faults", func(t *rapid.T) Case {
+		c := genCase(t)
+		// more stable traffic
+		for i := 0; i < len(c.Ops); i++ {
+			if c.Ops[i].K == "get" || (c.Ops[i].K == "append" && rapid.IntRange(0, 2).Draw(t, "toSet") == 0) {
+				c.Ops[i] = FOp{K: "set"}
+			}
+		}
+		c.Ops = append(c.Ops, FOp{K: "set"}, FOp{K: "set"})
+		if rapid.IntRange(0, 2).Draw(t, "stableFault") > 0 {
+			c.Faults = append(c.Faults[:0:0], Fault{Kind: string(rapid.SampledFrom([]simfs.Kind{simfs.KSetStable, simfs.KSetStable, simfs.KCommitState}).Draw(t, "sfk")),
+				Sel: rapid.IntRange(0, 40).Draw(t, "sfsel"), Mode: rapid.SampledFrom([]string{"transient", "transient", "persistent"}).Draw(t, "sfmode")})
+		}
+		return c
+	}, func(c Case) common.Result { return runCaseFor(c, "C08") })
 }
